@@ -3,7 +3,7 @@ import MgpuModel.Util
 
 Hand-written transcription (tie H) of `ReorderBuffer.Tick`:
 `processControlMsg` (discard / restart / `panic("never")`), then — unless flushing —
-`bottomUp`×n, `parseBottom`×n, `topDown`×n, over
+`bottomUp`×n, `parseBottom`×n, `topDown`×n (while flushing: `dropUndeliveredMsgs`), over
 * the transaction list (`transactions`) and the lookup table
   (`toBottomReqIDToTransactionTable`, here the list of its keys in insertion order; the
   element a key points to is the transaction with that bottom id),
@@ -195,8 +195,27 @@ def processCtl (c : Cfg) (s : St) : St × Bool :=
                   dropped := s.dropped ++ s.topIn.map (·.id) }, true)
     else ({ s with fault := some .never }, false)
 
+/-- `dropUndeliveredMsgs`: while the ROB is flushing, whatever still waits in the outgoing buffers
+    of the Bottom and Top ports (requests and responses of discarded transactions) is removed -/
+def dropOut (s : St) : St × Bool :=
+  ({ s with topOut := [], botOut := [] }, !s.botOut.isEmpty || !s.topOut.isEmpty)
+
 /-- `ReorderBuffer.Tick` -/
 def tick (c : Cfg) (s : St) : St × Bool :=
+  if s.fault.isSome then (s, false) else
+  let r := processCtl c s
+  if r.1.fault.isSome then (r.1, false)
+  else if r.1.flushing then
+    let d := dropOut r.1
+    (d.1, r.2 || d.2)
+  else
+    let q := runPipeline c r.1
+    (q.1, r.2 || q.2)
+
+/-- `ReorderBuffer.Tick` before repair 7c2f5a70: a flushing ROB left its outgoing buffers alone, so a
+    request of a discarded transaction could still be delivered (and served) after the restart of
+    the unit below -/
+def tickOld (c : Cfg) (s : St) : St × Bool :=
   if s.fault.isSome then (s, false) else
   let r := processCtl c s
   if r.1.fault.isSome then (r.1, false)
